@@ -350,6 +350,33 @@ func VX_C07_ctx() {
 			vx.Check(v.ItemAt(row) == cols[0].i[ix[row]]+c, "builtin + is still addition in the default context")
 		}
 	}
+	// the context the user supplied is the one that is consulted: registrations made after the option
+	// value was created (but before Eval runs) are part of it
+	ctx2 := eval.NewDefaultCtx()
+	opt := eval.EvalContext(ctx2)
+	ctx2.SetFunc("triple", func(x int) int { return vx.UFInt("tpl", x) })
+	ctx2.SetFunc("-", func(x, y int) int { return vx.UFInt("myminus", x, y) })
+	r5 := f.Eval("z", Expr("triple", types.ColumnName("a")), opt)
+	vx.Check(r5.Err == nil, "function registered after the option was created is found in the supplied context")
+	r6 := f.Eval("z", Expr("-", types.ColumnName("a"), c), opt)
+	vx.Check(r6.Err == nil, "override registered after the option was created: no error")
+	if r5.Err == nil && r6.Err == nil {
+		v5, v6 := r5.MustIntView("z"), r6.MustIntView("z")
+		for row := 0; row < 2; row++ {
+			vx.Check(v5.ItemAt(row) == vx.UFInt("tpl", cols[0].i[ix[row]]), "late registration: cell value")
+			vx.Check(v6.ItemAt(row) == vx.UFInt("myminus", cols[0].i[ix[row]], c), "late override is the function that runs")
+		}
+	}
+	// a second evaluation through the same option value after yet another registration
+	ctx2.SetFunc("triple", func(x int) int { return vx.UFInt("tpl2", x) })
+	r7 := f.Eval("z", Expr("triple", types.ColumnName("a")), opt)
+	vx.Check(r7.Err == nil, "re-registered function: no error")
+	if r7.Err == nil {
+		v7 := r7.MustIntView("z")
+		for row := 0; row < 2; row++ {
+			vx.Check(v7.ItemAt(row) == vx.UFInt("tpl2", cols[0].i[ix[row]]), "re-registered function is the one that runs")
+		}
+	}
 	vx.Reach("end")
 }
 
